@@ -31,6 +31,7 @@ type HarnessCfg struct {
 	NoReplay  bool                      `json:"no_replay"`
 	MaxSeconds map[string]int           `json:"max_seconds"`
 	Stubs      map[string]string        `json:"stubs"`
+	YieldMode  string                   `json:"yield_mode"`
 }
 
 type CheckCfg struct {
@@ -51,6 +52,7 @@ type CheckCfg struct {
 	Functions    []string          `json:"functions"`
 	SkipInit     []string          `json:"skip_init"`
 	AllocEnumMax int               `json:"alloc_enum_max"`
+	YieldMode    string            `json:"yield_mode"`
 }
 
 type KnownFinding struct {
@@ -144,6 +146,7 @@ func main() {
 	if cfg.MaxPreempt > 0 {
 		P.MaxPreempt = cfg.MaxPreempt
 	}
+	P.ExplicitYield = cfg.YieldMode == "explicit"
 	if cfg.AllocEnumMax > 0 {
 		P.AllocEnumMax = cfg.AllocEnumMax
 	}
@@ -220,6 +223,7 @@ func main() {
 				fatalf(2, "stub %s: %v", target, err)
 			}
 		}
+		P.ExplicitYield = cfg.YieldMode == "explicit" || hc.YieldMode == "explicit"
 		maxSec := 600
 		if *tier == "thorough" {
 			maxSec = 3600
